@@ -165,7 +165,12 @@ class Gen:
             self.items.append({'k': 'orgjump', 'addr': 0x400 + 0x20 * self.org_n})
             self.marker()
             self.tags.add('effect:origin')
-        elif r < 0.84 and self.o.get('mute', True):
+        elif r < 0.82 and self.o.get('zones', True):
+            # a zone switch inside a branch: it moves the following bytes only if the branch is selected
+            self.items.append({'k': 'zswitch', 'name': rng.choice(['PZ1', 'PZ2', 'GLOBAL'])})
+            self.marker()
+            self.tags.add('effect:zone-switch')
+        elif r < 0.86 and self.o.get('mute', True):
             self.items.append({'k': 'mute'})
             self.marker()
             self.pending_probes.append(('unmute', None))
@@ -267,6 +272,10 @@ class Gen:
         rng = self.rng
         for _ in range(rng.randrange(1, 4)):
             self.top_define()
+        if self.o.get('zones', True) and self.o.get('named_start', rng.random() < 0.3):
+            # the program runs in a named zone: an .org / .memzone of an unselected branch must not take it out of there
+            self.items.append({'k': 'zswitch', 'name': rng.choice(['PZ1', 'PZ2']), 'selected': True})
+            self.tags.add('starts-in-named-zone')
         for _ in range(rng.randrange(1, 4)):
             self.marker()
             if rng.random() < 0.4:
@@ -303,6 +312,8 @@ def render(items, rng):
             out.append(f"#create_memzone {it['name']} {it['start']} {it['end']}")
         elif k == 'orgjump':
             out.append(f".org {it['addr']}")
+        elif k == 'zswitch':
+            out.append(f".memzone {it['name']}")
         elif k == 'mute':
             out.append('#mute')
         elif k == 'unmute':
@@ -316,6 +327,9 @@ def render(items, rng):
         elif k == 'raw':
             out.append(it['text'])
     return '\n'.join(out) + '\n'
+
+
+PZONES = [{'name': 'PZ1', 'start': 0x900, 'end': 0x97F}, {'name': 'PZ2', 'start': 0x980, 'end': 0x9FF}]
 
 
 def model(items, presyms):
@@ -370,6 +384,8 @@ def model(items, presyms):
             lines.append({'k': 'memzone', 'name': 'GLOBAL'})
         elif k == 'orgjump':
             lines.append({'k': 'org', 'addr': it['addr'], 'zone_name': None})
+        elif k == 'zswitch':
+            lines.append({'k': 'memzone', 'name': it['name']})
         elif k == 'mute':
             lines.append({'k': 'mute'})
         elif k == 'unmute':
@@ -379,7 +395,7 @@ def model(items, presyms):
             for m in it['lines']:
                 lines.append({'k': 'data', 'width': 1, 'vals': [m['v']], 'marker': m['v'], 'ctx': it.get('ctx')})
             lines.append({'k': 'include_end'})
-    res = layout.layout(lines, 16, origin=0, size_of=lambda l, a: len(l['vals']))
+    res = layout.layout(lines, 16, origin=0, predefined_zones=PZONES, size_of=lambda l, a: len(l['vals']))
     if res.kind != 'ACCEPT':
         return {'kind': 'DONT_CARE', 'why': res.reason}
     layout.memory_map(res, lambda l: bytes(l['vals']))
@@ -403,7 +419,7 @@ class C08(core.Check):
     required_buckets = {b: 3 for b in [
         'opener:if', 'opener:ifdef', 'opener:ifndef', 'has-elif', 'has-else', 'depth:2', 'depth:3',
         'define-inside-block-that-tests-it', 'effect:define', 'effect:label', 'effect:constant', 'effect:create_memzone',
-        'effect:mute', 'effect:include', 'effect:origin', 'effect:unmute-inside-branch-while-muted', 'if:bare-literal', 'if:bare-symbol', 'if:text-comparison', 'if:op==', 'if:op!=',
+        'effect:mute', 'effect:include', 'effect:origin', 'effect:zone-switch', 'starts-in-named-zone', 'effect:unmute-inside-branch-while-muted', 'if:bare-literal', 'if:bare-symbol', 'if:text-comparison', 'if:op==', 'if:op!=',
         'if:op>', 'if:op>=', 'if:op<', 'if:op<=', 'ctx:unsel:nested-in-unselected', 'ctx:unsel:earlier-branch-taken',
         'ctx:unsel:condition-false', 'numeric-vs-text-disagree', 'stray:else', 'stray:elif', 'stray:endif', 'stray:in-included-file',
         'source:cli', 'source:isa']}
@@ -436,7 +452,7 @@ class C08(core.Check):
             tags.add('source:cli')
         if g.isa_syms:
             tags.add('source:isa')
-        isa = gen_prog.layout_isa(16)
+        isa = gen_prog.layout_isa(16, zones=PZONES)
         if g.isa_syms:
             isa.setdefault('predefined', {})['symbols'] = [
                 ({'name': n, 'value': opnd_text(v)} if v is not None else {'name': n}) for n, v in g.isa_syms]
@@ -465,7 +481,10 @@ class C08(core.Check):
         n = 400 if tier == 'quick' else 8000
         for i in range(n_pre + n):
             rng = core.rng_for(0 if i < n_pre else seed, self.pid, i)
-            g = Gen(rng, {'max_depth': rng.choice([1, 2, 3, 4])}).program()
+            opts = {'max_depth': rng.choice([1, 2, 3, 4])}
+            if i < n_pre:
+                opts['named_start'] = (i % 3 == 0)
+            g = Gen(rng, opts).program()
             yield self.finish(g, rng)
         # stray directives
         strays = [('else', ['.byte 1', '#else', '.byte 2']), ('endif', ['.byte 1', '#endif']),
